@@ -34,8 +34,12 @@ CLAIMED = {
              "form is the property's oracle, so a routing defect yields a concrete failing program.",
         technique="Lean 4 invariant proofs over an executable bookkeeping model + executable specification (Optic) "
                   "used as oracle in a model/implementation correspondence check",
-        note="The refinement theorem sem_add (bookkeeping model = Optic.compose for all inputs) is NOT proved; it is "
-             "validated by running both models and the code on every generated case. Amplitude clause via Fock functor.",
+        note="The refinement theorems sem_add / sem_add_accepts / sem_bs / sem_ps / sem_loss / sem_swaps / sem_herald "
+             "(LW/Properties/C02Sem.lean) are PROVED for every constructible circuit: on canonical closed forms the "
+             "abstraction of the bookkeeping state commutes with Optic.compose for any nesting, grouping flag, herald "
+             "order, in != out heralds and existing ancillas; the same equality is also evaluated exactly on every "
+             "generated case. The amplitude clause follows by the Cauchy-Binet / Fock-functor theorem "
+             "(LW/Proofs/FockFunctor.lean: ampNum_mul).",
         ref="§5 C02"),
     "C08": dict(
         text="Lean frame theorems over a pool-of-objects model of the construction API (heapStep): a call changes at "
@@ -229,6 +233,20 @@ CLAIMED = {
         note="PARTIAL: convergence of the projected-gradient loop, numpy pinv/eigh/solve and sqrtm are outside the "
              "proof; mle_model_consistent is proved at row level (list-level packaging kept as a statement).",
         ref="§5 C16"),
+    "C06": dict(
+        text="The Lean model of the source (outcome table, per-mode and cross-mode combination with fresh labels, "
+             "empty-mode grouping, label canonicalisation, thresholding, annotated_state_pdist_calc) is proved, for all "
+             "inputs and parameters, to produce the mixture over independent per-photon emission outcomes of the merged "
+             "boson-sampling distributions of the distinguishable groups; from that follow normalisation of input "
+             "statistics and output, g2 = 1 - purity (with the real square root the code uses), the perfect-source "
+             "reduction, invariance under label remapping and HOM visibility = indistinguishability. Tied to the code "
+             "by comparing Sampler.probability_distribution (both backends) and Source.check_number with the exact "
+             "model and with an independent mixture reference on generated circuits.",
+        technique="Lean 4 proof of the mixture semantics over an executable model + differential check against exact "
+                  "rationals and an independent mixture reference",
+        note="PARTIAL: the classical-particle limit and full-path = basic-path are proved for the two-photon input "
+             "only and stated in general as open Props (checked numerically on every case).",
+        ref="§5 C06"),
 }
 
 PENDING_REASON = "check not built yet in this session (planned, see DESIGN.md §5 and §11); not claimed until its machinery exists"
